@@ -213,6 +213,22 @@ def check_kinship(prog, rep):
             continue
         n += 1
         half = co.scale("1/2")
+        # a value that is the INVERSE of the matrix is homogeneous of degree -1: K = G/2  =>  inv(K) = 2 inv(G)
+        is_inverse = any(isinstance(a, tuple) and a[0] == "np.linalg.inv" for a in co.atoms()) and len(co.terms) == 1 and not any(
+            isinstance(a, tuple) and a[0] in ("red", "inv") for a in co.atoms())
+        if is_inverse:
+            try:
+                alt = VN(prog, f).expr(ast.parse("numpy.linalg.inv(0.5 * self._mat)", mode="eval").body)
+            except VNUnknown:
+                alt = None
+            if ki == co.scale(2) or ki == alt:
+                rep.ok("R3-kinship", construct, "kinship inverse == inverse of 0.5 * coancestry (= 2 * coancestry inverse)")
+            elif comparable(ki, co):
+                rep.violate("R3-kinship", construct, "the kinship inverse normalises to %s; with K = G/2 the inverse is inv(0.5*G) = 2*inv(G), not %s"
+                            % (ki.show()[:80], "half of inv(G)" if ki == half else "that"), where(f), "numpy.linalg.inv(0.5 * self._mat)", ki.show()[:80])
+            else:
+                rep.unrec("R3-kinship", construct, "kinship inverse uses other operators")
+            continue
         if ki == half:
             rep.ok("R3-kinship", construct, "kinship value == 0.5 * coancestry value")
             continue
